@@ -408,6 +408,9 @@ func (iv *Intervals) def(v ssa.Value, at ssa.Instruction) Interval {
 		switch id {
 		case "builtin.len", "builtin.cap":
 			return iv.lenOf(x.Common().Args[0], at, id == "builtin.cap")
+		case "builtin.copy":
+			a, b := iv.lenOf(x.Common().Args[0], at, false), iv.lenOf(x.Common().Args[1], at, false)
+			return Interval{min64(a.Lo, b.Lo), min64(a.Hi, b.Hi)}
 		case "builtin.min":
 			r := iv.At(x.Common().Args[0], at)
 			for _, a := range x.Common().Args[1:] {
